@@ -161,6 +161,11 @@ def f_cyc():
     add("two_scc", I("a", "b") + [("p", "or", ["a", "q"]), ("q", "buf", ["p"]), ("u", "and", ["b", "v", "q"]), ("v", "buf", ["u"]), ("o", "xor", ["q", "v"], True)])
     add("out_outside", I("a") + [("p", "or", ["a", "q"]), ("q", "and", ["p", "a"]), ("o", "not", ["a"], True), ("o2", "buf", ["q"], True)])
     add("xor_ring", I("a") + [("p", "xor", ["a", "q"]), ("q", "buf", ["p"], True)])
+    add("two_cuts_v_first", I("a", "b") + [("v", "and", ["f", "g", "a"], True), ("f", "or", ["v", "b"]), ("g", "xor", ["v", "a"])])
+    add("two_cuts_v_last", I("a", "b") + [("f", "or", ["v", "b"]), ("g", "xnor", ["v", "a"]), ("v", "nand", ["f", "g", "a"], True)])
+    add("two_cuts_mixed", I("a", "b") + [("f", "nor", ["v", "b"]), ("v", "or", ["f", "g"], True), ("g", "and", ["v", "a"]), ("w", "xor", ["f", "g", "b"], True)])
+    add("shared_load_three", I("a") + [("v", "xor", ["f", "g", "h"], True), ("f", "and", ["v", "a"]), ("g", "or", ["v", "a"]), ("h", "not", ["v"])])
+    S.append((("cyc", "feedthrough_output"), mkspec("feedthrough_output", [("s", "input", [], True), ("r", "input", []), ("q", "nor", ["r", "qn"], True), ("qn", "nor", ["s", "q"])])))
     return S
 
 
@@ -246,6 +251,14 @@ def f_bb():
     n, e = pins("f0", FF, {"clk": "k1", "d": "k0", "q": "qb"})
     add("flop_consts", I("a") + [("k0", "0", []), ("k1", "1", []), ("qb", "buf", []), ("o", "or", ["qb", "a"], True)] + n, {"f0": FF}, e)
     return S
+
+
+def f_bb_dotted():
+    """a blackbox whose PIN names contain a dot (legal for the Circuit API and lint; not expressible in Verilog)"""
+    BOXD = ["boxd", ["data.d", "en"], ["data.q"]]
+    nodes = [("a", "input", []), ("b", "input", []), ("qd", "buf", []), ("o", "and", ["qd", "a"], True),
+             ("r0.data.d", "bb_input", ["a"]), ("r0.en", "bb_input", ["b"]), ("r0.data.q", "bb_output", [])]
+    return [(("bb", "dotted_pins"), mkspec("dotted_pins", nodes, edges=[("r0.data.q", "qd")], bbs={"r0": BOXD}))]
 
 
 def seq_circuits():
